@@ -37,7 +37,11 @@ def jobs(tier):
         add(graph="mixed-2", n=4, start=5, has_indel=True, heap_size=1e9, nvt=0)
         add(graph="no-repeat-3", n=3, start=6, has_indel=True, heap_size=1e9, nvt=0)
         add(graph="no-repeat-3", n=4, start=27, has_indel=True, heap_size=1e9, nvt=0)
+        for ne in (20, 63, 64):
+            add(side="long", errors=ne, graph="gc-balanced-2", n=4 * ne + 8)
     else:
+        for ne in (20, 62, 63, 64, 65, 127):
+            add(side="long", errors=ne, graph="gc-balanced-2", n=4 * ne + 8)
         for n in range(1, 7):
             add(graph="complete-1", n=n, start=0, has_indel=True, heap_size=1e9, nvt=0)
         for n in range(1, 7):
@@ -57,11 +61,55 @@ def jobs(tier):
 
 def bounds(tier):
     js = jobs(tier)
+    longs = [j for j in js if j.get("side") == "long"]
+    js = [j for j in js if j.get("side") != "long"]
     return {"graphs": sorted(set(j["graph"] for j in js)), "max_strand_length": max(j["n"] for j in js), "strings": "all 4^n strings per job (symbolic)",
+            "concrete probes (not deciding)": "strands of %s nt with an error every 4th position" % sorted(j["n"] for j in longs),
             "outside": "longer strands, other graphs, k >= 4"}
 
 
+def long_strand(nerr):
+    """walk TCTC... of the GC-balanced order-2 graph from vertex AC with a C->A substitution every 4th position."""
+    s = list("TC" * (2 * nerr + 4))
+    for i in range(nerr):
+        s[4 * i + 5] = "A"
+    return "".join(s)
+
+
+def body_long(e, L, cfg):
+    """concrete probe far outside the symbolic bound (bug hunting only): a long strand with many separated errors must still
+    return at once through the heap-size cut-off (the candidate count is a product that grows as 2^errors)."""
+    import signal
+    from symx import symnp, strs
+    k, rows = repair.graph_by_name("gc-balanced-2")
+    s = long_strand(cfg["errors"])
+    cex = {"kind": "repair", "graph": "gc-balanced-2", "strand": s, "start": 1, "k": 2, "vt_check": None, "has_indel": False, "heap_size": 1000.0,
+           "time_limit": 20, "timeout_is_violation": True}
+
+    def on_alarm(*a):
+        raise core_Budget("wall-clock limit of the probe")
+    from symx.core import Budget as core_Budget
+    old = signal.signal(signal.SIGALRM, on_alarm)
+    signal.setitimer(signal.ITIMER_REAL, 25)
+    symnp.WHERE_POLICY = "concrete"
+    try:
+        r = L.repair_dna(strs.K(s), symnp.array(rows), 1, 2, has_indel=False)
+    except core_Budget:
+        return {"status": "viol", "why": "repair_dna did not return within 25 s on a %d-nt strand with %d separated errors" % (len(s), cfg["errors"]), "cex": cex}
+    except Exception as ex:
+        return {"status": "viol", "why": "repair_dna raised %s on the long probe" % type(ex).__name__, "cex": cex}
+    finally:
+        signal.setitimer(signal.ITIMER_REAL, 0)
+        signal.signal(signal.SIGALRM, old)
+        symnp.WHERE_POLICY = "symlen"
+    if not (isinstance(r, tuple) and len(r) == 2 and isinstance(r[0], list)):
+        return {"status": "viol", "why": "malformed result on the long probe", "cex": cex}
+    return {"status": "ok", "sample": {"long probe": "%d nt, %d errors" % (len(s), cfg["errors"]), "candidates": len(r[0])}}
+
+
 def body(e, L, cfg):
+    if cfg.get("side") == "long":
+        return body_long(e, L, cfg)
     return repair.body_any(e, L, cfg, check_sorted=False, check_vt=False)
 
 
